@@ -270,17 +270,19 @@ class APCI(ABC):
         service = apci & 0x03C0
 
         try:
-            if service == APCIService.GROUP_READ.value:
+            # services without data in the low six bits own a single code - the
+            # codes next to them are not assigned
+            if apci == APCIService.GROUP_READ.value:
                 return GroupValueRead.from_knx(raw)
             if service == APCIService.GROUP_WRITE.value:
                 return GroupValueWrite.from_knx(raw)
             if service == APCIService.GROUP_RESPONSE.value:
                 return GroupValueResponse.from_knx(raw)
-            if service == APCIService.INDIVIDUAL_ADDRESS_WRITE.value:
+            if apci == APCIService.INDIVIDUAL_ADDRESS_WRITE.value:
                 return IndividualAddressWrite.from_knx(raw)
-            if service == APCIService.INDIVIDUAL_ADDRESS_READ.value:
+            if apci == APCIService.INDIVIDUAL_ADDRESS_READ.value:
                 return IndividualAddressRead.from_knx(raw)
-            if service == APCIService.INDIVIDUAL_ADDRESS_RESPONSE.value:
+            if apci == APCIService.INDIVIDUAL_ADDRESS_RESPONSE.value:
                 return IndividualAddressResponse.from_knx(raw)
             if service == APCIService.ADC_READ.value:
                 return ADCRead.from_knx(raw)
